@@ -10,13 +10,18 @@ META = {
 }
 MANIFEST_ENTRY = {
     "level_text": "Deductive proof of the per-class notional/coupon/carry clauses and of update's fixed-income clauses for all inputs.",
-    "level_note": "Reals not floats; rebalance/transact fixed-income branches, SetNotional and the renormalised result are not yet under contract.",
+    "level_note": "Reals not floats; StrategyBase.rebalance (notional amount, transact for fixed-income children) and algos.Rebalance (base from temp['notional_value']) are under contract; CouponPayingSecurity.setup's lookups of the coupon / holding-cost tables, SetNotional and the renormalised result are covered by the bounded stand-in only.",
     "technique": "contract-based deductive verification: VCs from the real AST (pyvc) discharged by z3/cvc5; loop invariants with ghost sums; lemmas over contract clauses",
 }
 
 
 def tasks(tier, seed):
     return [
+        func("bt.core.StrategyBase.rebalance"),
+        func("bt.algos.Rebalance.__call__"),
+        dict(kind="custom", module="props.c04_tasks", fn="setup_clauses"),
+        dict(kind="custom", module="props.lemmas", fn="c06_rebalance_lemmas"),
+        dict(kind="custom", module="props.bounded", fn="run_script", script="c17_fixed_income", seed=seed, n=10 if tier == "quick" else 200, props=["C17"]),
         *UPDATE_ALL,
         func("bt.core.SecurityBase.update"),
         func("bt.core.FixedIncomeSecurity.update"),
@@ -27,6 +32,13 @@ def tasks(tier, seed):
 
 
 def replay(o):
+    if o.get("replay_inline"):
+        return o["replay_inline"]
     from pyvc.concrete import replay_scenario
 
     return replay_scenario(o)
+
+
+def post(results, tier, seed):
+    b = [r["bounded"] for r in results if r.get("bounded")]
+    return None, dict(bounded_stand_ins=b, bounded_note="real runs on the interpreted scratch copy; never counted in obligations/discharged")
